@@ -120,6 +120,26 @@ def schedule(rng, h, secs, style, capchg=False, cancel=False):
     h.ops.append("dack:1000")
 
 
+def cut_deliveries(rng, ops, inner=True):
+    """Every `denc:<k>` but the last (the drain) becomes, with probability 0.7, a delivery in chunks: `denc:<k>@<j>.<m>,…`
+    (j = instruction of that delivery, m = 0 boundary in front of it, m >= 1 inside it).  A cut inside an instruction makes
+    the real decoder stop in front of it (D-20f); the instructions left are handed over again by the next `denc`, at the
+    latest by the whole drain.  With probability 0.3 a cut drain is put in front of the whole one.
+    `inner=False`: cuts at instruction boundaries only (must change nothing)."""
+    def cuts():
+        n = rng.choice([1, 1, 2, 3])
+        return ",".join("%d.%d" % (rng.choice([0, 0, 1, 1, 2, 3, 5, 8]), rng.choice([0, 1, 1, 2, 3, 7]) if inner else 0)
+                        for _ in range(n))
+    idx = [i for i, o in enumerate(ops) if o.startswith("denc:")]
+    out = list(ops)
+    for i in idx[:-1]:
+        if rng.random() < 0.7:
+            out[i] = "%s@%s" % (ops[i], cuts())
+    if idx and rng.random() < (0.3 if inner else 1.0):
+        out.insert(idx[-1], "%s@%s" % (ops[idx[-1]], cuts()))
+    return out
+
+
 STYLES = ["sync", "blockfirst", "noack", "late", "trickle", "random", "random", "random"]
 
 
@@ -192,8 +212,32 @@ class C20(Prop):
             h = Hist(rng, cap, bl)
             schedule(rng, h, workload(rng, n, small, wide), style,
                      capchg=(j % 10 == 7 and not wide), cancel=(j % 10 == 9 and not wide))
+            # every 8th history: the encoder stream reaches the decoder in chunks that cut instructions (bC12);
+            # every 40th: in chunks that end at instruction boundaries
+            if j % 8 == 5:
+                h.ops = cut_deliveries(rng, h.ops, inner=(j % 40 != 5))
             L.append(h.line())
         return L
+
+    def extra(self, tier, rng, ctx):
+        """O-20e: one NOTE per run with the number of histories in which more streams could become blocked than the
+        blocked-stream limit allows (RFC 9204 2.1.2; state mark `~blk<n>`, compared between implementation and model)."""
+        over, worst, first = 0, 0, None
+        small = 0
+        for l, im in zip(ctx["lines"], ctx["impl"]):
+            ns = [int(m) for m in re.findall(r"~blk(\d+)", im)]
+            if ns:
+                over += 1
+                worst = max(worst, max(ns) - int(l.split()[2]))
+                small += l.split()[2] in ("1", "2")
+                if first is None or len(l) < len(first):
+                    first = l
+        msg = ("O-20e (RFC 9204 2.1.2, not part of C20's text): in %d of %d histories more streams could become blocked than "
+               "SETTINGS_QPACK_BLOCKED_STREAMS allows (`~blk<n>`; %d of them with limit 1 or 2; largest excess %d)"
+               % (over, len(ctx["lines"]), small, worst))
+        if first:
+            msg += "; shortest: `%s`" % first
+        return [("note", msg, None)]
 
     # ------------------------------------------------------------------ known findings, per op
     TAG = re.compile(r"#D-[0-9a-z]+")
@@ -257,6 +301,10 @@ class C20(Prop):
         for t in toks:
             if t[:2] in ("E:", "X:", "B:", "A:", "C:", "K:"):
                 kinds.add(t)
+            elif "~blk" in t:
+                kinds.add("~blk")
+                if t.startswith("~2"):
+                    kinds.add(t.split("~blk")[0])
             elif t.startswith("~2"):
                 kinds.add(t)
             elif t.startswith("n=") and ";inc=" in t:
@@ -278,6 +326,13 @@ class C20(Prop):
         for i in range(len(ops) - 1, -1, -1):
             out.append(" ".join(head + ops[:i] + ops[i + 1:]))
         for i, o in enumerate(ops):
+            if o.startswith("denc:") and "@" in o:
+                k, cs = o.split("@", 1)
+                out.append(" ".join(head + ops[:i] + [k] + ops[i + 1:]))
+                cl = cs.split(",")
+                for c in range(len(cl)):
+                    if len(cl) > 1:
+                        out.append(" ".join(head + ops[:i] + ["%s@%s" % (k, ",".join(cl[:c] + cl[c + 1:]))] + ops[i + 1:]))
             if o.startswith("enc:"):
                 _, sid, fs = o.split(":", 2)
                 fl = [f for f in fs.split(",") if f]
